@@ -658,3 +658,219 @@ Proof.
   destruct resolutions_decreasing as (R1 & R2 & R3 & _). destruct source_shape as (S1 & _ & S3 & S4 & S5 & S6).
   repeat split; assumption.
 Qed.
+
+(* ---- histories: the set as per-resolution sorted lists --------------------------------------------- *)
+From Coq Require Import Permutation.
+
+Definition ble (a b : block) : Prop := blk_le a b = true.
+
+Lemma blk_le_total a b : blk_le a b = false -> blk_le b a = true.
+Proof.
+  unfold blk_le. intro H. apply orb_false_iff in H as [H1 H2]. apply Z.ltb_ge in H1.
+  apply orb_true_iff. destruct (Z.eq_dec (bmin a) (bmin b)) as [E|N].
+  - right. rewrite E in *. rewrite Z.eqb_refl in *. cbn [andb] in *. apply Z.leb_gt in H2. apply Z.leb_le. lia.
+  - left. apply Z.ltb_lt. lia.
+Qed.
+
+Lemma blk_le_trans a b c : ble a b -> ble b c -> ble a c.
+Proof.
+  unfold ble, blk_le. rewrite !orb_true_iff, !andb_true_iff, !Z.ltb_lt, !Z.eqb_eq, !Z.leb_le. lia.
+Qed.
+
+(* strongly sorted *)
+Fixpoint ssorted (l : list block) : Prop :=
+  match l with
+  | [] => True
+  | a :: r => Forall (ble a) r /\ ssorted r
+  end.
+
+Lemma insert_perm b : forall l, Permutation (insert_blk b l) (b :: l).
+Proof.
+  induction l as [|x r IH]; cbn [insert_blk]; [reflexivity|].
+  destruct (blk_le b x); [reflexivity|]. rewrite IH. apply perm_swap.
+Qed.
+
+Lemma insert_ssorted b : forall l, ssorted l -> ssorted (insert_blk b l).
+Proof.
+  induction l as [|x r IH]; intro H; cbn [insert_blk ssorted]; [split; [constructor|exact I]|].
+  destruct H as [Hx Hr]. destruct (blk_le b x) eqn:E; cbn [ssorted].
+  - split; [|split; assumption]. constructor; [exact E|].
+    eapply Forall_impl; [|exact Hx]. intros y Hy. apply (blk_le_trans b x y E Hy).
+  - split; [|apply IH; exact Hr].
+    apply (Permutation_Forall (Permutation_sym (insert_perm b r))). constructor; [apply blk_le_total; exact E|exact Hx].
+Qed.
+
+Lemma forall_filter {A} (P : A -> Prop) f : forall l, Forall P l -> Forall P (filter f l).
+Proof. induction l as [|x r IH]; intro H; cbn [filter]; [constructor|]. inversion H; subst. destruct (f x); [constructor|]; auto. Qed.
+
+Lemma filter_ssorted f : forall l, ssorted l -> ssorted (filter f l).
+Proof.
+  induction l as [|x r IH]; intro H; cbn [filter]; [exact I|]. destruct H as [Hx Hr].
+  destruct (f x); cbn [ssorted]; [split; [apply forall_filter; exact Hx|apply IH; exact Hr]|apply IH; exact Hr].
+Qed.
+
+Lemma ssorted_sorted_by : forall l, ssorted l -> sorted_by blk_le l = true.
+Proof.
+  induction l as [|a r IH]; intro H; [reflexivity|]. destruct H as [Ha Hr]. cbn [sorted_by].
+  rewrite (IH Hr), andb_true_r. destruct r as [|b r']; [reflexivity|]. inversion Ha; subst. assumption.
+Qed.
+
+Definition lvl_inv (r : Z) (l : list block) : Prop := Forall (fun b => bres b = r) l /\ ssorted l.
+
+Lemma madd_inv : forall res lv b, Forall2 lvl_inv res lv -> Forall2 lvl_inv res (madd res lv b).
+Proof.
+  induction res as [|r res IH]; intros lv b H; inversion H as [|? l ? lv' [H1 H2] H3]; subst; cbn [madd]; [constructor|].
+  destruct (bres b =? r) eqn:E.
+  - constructor; [|exact H3]. split; [|apply insert_ssorted; exact H2].
+    apply (Permutation_Forall (Permutation_sym (insert_perm b l))). constructor; [apply Z.eqb_eq; exact E|exact H1].
+  - constructor; [split; assumption|apply IH; exact H3].
+Qed.
+
+Lemma madd_perm : forall res lv b, length res = length lv -> In (bres b) res ->
+  Permutation (concat (madd res lv b)) (b :: concat lv).
+Proof.
+  induction res as [|r res IH]; intros [|l lv] b Hl Hin; cbn in Hl; try discriminate; [contradiction|].
+  cbn [madd]. destruct (bres b =? r) eqn:E; cbn [concat].
+  - rewrite insert_perm. reflexivity.
+  - apply Z.eqb_neq in E. destruct Hin as [->|Hin]; [congruence|].
+    rewrite (IH lv b ltac:(lia) Hin). symmetry. apply Permutation_middle.
+Qed.
+
+Lemma forall2_len {A B} (R : A -> B -> Prop) : forall l1 l2, Forall2 R l1 l2 -> length l1 = length l2.
+Proof. induction 1; cbn; congruence. Qed.
+
+Lemma madd_unknown : forall res lv b, ~ In (bres b) res -> madd res lv b = lv.
+Proof.
+  induction res as [|r res IH]; intros [|l lv] b H; cbn [madd]; try reflexivity.
+  destruct (bres b =? r) eqn:E; [apply Z.eqb_eq in E; exfalso; apply H; left; auto|].
+  f_equal. apply IH. intro Hin. apply H. right. exact Hin.
+Qed.
+
+Lemma mremove_inv id : forall res lv, Forall2 lvl_inv res lv -> Forall2 lvl_inv res (mremove id lv).
+Proof.
+  induction res as [|r res IH]; intros lv H; inversion H as [|? l ? lv' [H1 H2] H3]; subst; cbn [mremove map]; constructor.
+  - split; [apply forall_filter; exact H1|apply filter_ssorted; exact H2].
+  - apply IH. exact H3.
+Qed.
+
+Lemma concat_mremove id : forall lv, concat (mremove id lv) = filter (fun b => negb (N.eqb (bid b) id)) (concat lv).
+Proof.
+  induction lv as [|l lv IH]; [reflexivity|]. cbn [mremove map concat]. rewrite filter_app. f_equal. exact IH.
+Qed.
+
+Lemma nodup_map_filter {A B} (f : A -> B) g : forall l, NoDup (map f l) -> NoDup (map f (filter g l)).
+Proof.
+  induction l as [|x r IH]; intro H; cbn [filter map]; [constructor|]. cbn [map] in H. inversion H as [|? ? Hn Hr]; subst.
+  destruct (g x); cbn [map]; [constructor; [|apply IH; exact Hr]|apply IH; exact Hr].
+  intro Hin. apply Hn. apply in_map_iff in Hin as (y & E & Hy). apply filter_In in Hy as [Hy _]. apply in_map_iff. eauto.
+Qed.
+
+Lemma perm_filter {A} (f : A -> bool) : forall l1 l2, Permutation l1 l2 -> Permutation (filter f l1) (filter f l2).
+Proof.
+  induction 1; cbn [filter].
+  - constructor.
+  - destruct (f x); [constructor|]; assumption.
+  - destruct (f x), (f y); try reflexivity. apply perm_swap.
+  - etransitivity; eassumption.
+Qed.
+
+Lemma known_res_in r : known_res r = true <-> In r resolutions.
+Proof.
+  unfold known_res. rewrite existsb_exists. split.
+  - intros (x & Hx & E). apply Z.eqb_eq in E. subst. exact Hx.
+  - intro H. exists r. split; [exact H|apply Z.eqb_refl].
+Qed.
+
+(* the state reached by a history: (model levels, specification set) *)
+Definition hstate_run (ops : list hop) : list (list block) * list block :=
+  fold_left (fun st o => (mset_step (fst st) o, spec_step (snd st) o)) ops (mset_init, []).
+
+Definition hinv_set (lv : list (list block)) (cur : list block) : Prop :=
+  Forall2 lvl_inv resolutions lv /\ Permutation (concat lv) cur /\ NoDup (map bid cur).
+
+Lemma hstep_inv lv cur o : hinv_set lv cur ->
+  (match o with OAdd b => ~ In (bid b) (map bid cur) | _ => True end) ->
+  hinv_set (mset_step lv o) (spec_step cur o).
+Proof.
+  intros (I1 & I2 & I3) Hf. destruct o as [b|id|m M r]; cbn [mset_step spec_step].
+  - destruct (known_res (bres b)) eqn:K.
+    + apply known_res_in in K. split; [apply madd_inv; exact I1|]. split.
+      * rewrite madd_perm; [|apply (forall2_len _ _ _ I1)|exact K].
+        rewrite I2. apply Permutation_cons_append.
+      * rewrite map_app. cbn [map]. apply (Permutation_NoDup (Permutation_cons_append _ _)). constructor; assumption.
+    + assert (N : ~ In (bres b) resolutions) by (intro H; apply known_res_in in H; congruence).
+      rewrite madd_unknown by exact N. repeat split; assumption.
+  - split; [apply mremove_inv; exact I1|]. split.
+    + rewrite concat_mremove. apply perm_filter. exact I2.
+    + apply nodup_map_filter. exact I3.
+  - repeat split; assumption.
+Qed.
+
+Lemma fresh_ids_step cur o r : fresh_ids cur (o :: r) = true ->
+  (match o with OAdd b => ~ In (bid b) (map bid cur) | _ => True end) /\ fresh_ids (spec_step cur o) r = true.
+Proof.
+  cbn [fresh_ids]. intro H. apply andb_true_iff in H as [H1 H2]. split; [|exact H2].
+  destruct o as [b| |]; auto. apply negb_true_iff in H1. intro Hin. apply in_map_iff in Hin as (x & E & Hx).
+  assert (existsb (fun x => N.eqb (bid x) (bid b)) cur = true) by (apply existsb_exists; exists x; split; [exact Hx|apply N.eqb_eq; exact E]).
+  congruence.
+Qed.
+
+Lemma hrun_inv : forall ops lv cur, hinv_set lv cur -> fresh_ids cur ops = true ->
+  hinv_set (fst (fold_left (fun st o => (mset_step (fst st) o, spec_step (snd st) o)) ops (lv, cur)))
+           (snd (fold_left (fun st o => (mset_step (fst st) o, spec_step (snd st) o)) ops (lv, cur))).
+Proof.
+  induction ops as [|o r IH]; intros lv cur I F; cbn [fold_left fst snd]; [exact I|].
+  destruct (fresh_ids_step cur o r F) as [F1 F2]. apply IH; [apply hstep_inv; assumption|exact F2].
+Qed.
+
+Lemma lvl_inv_wf lv : Forall2 lvl_inv resolutions lv -> wf_levels lv.
+Proof.
+  unfold wf_levels. generalize resolutions. intros res H. induction H as [|r l res' lv' [H1 H2] _ IH]; constructor; [|exact IH].
+  split; [exact H1|]. apply sorted_blk_min. apply ssorted_sorted_by. exact H2.
+Qed.
+
+(* every state reachable by add / remove / getFor calls (ids of added blocks new) is a well-formed
+   set holding exactly the specification set; hence the four clauses hold for every getFor in it *)
+Lemma reachable_clauses ops : fresh_ids [] ops = true ->
+  let lv := fst (hstate_run ops) in let cur := snd (hstate_run ops) in
+  wf_levels lv /\ NoDup (map bid (concat lv)) /\ Permutation (concat lv) cur /\
+  forall mint maxt maxres out, get_for_top true lv mint maxt maxres = Some out ->
+    Forall (fun b => bres b <= maxres) out /\
+    Forall (fun b => bmin b <= maxt /\ mint < bmax b) out /\ incl out cur /\
+    NoDup (map bid out) /\
+    (forall t b, mint <= t <= maxt -> In b cur -> bres b <= maxres -> covers b t = true ->
+       exists b', In b' out /\ covers b' t = true).
+Proof.
+  intro F. cbn zeta. unfold hstate_run.
+  assert (I0 : hinv_set mset_init []).
+  { split; [|split; [|constructor]].
+    - unfold mset_init. induction resolutions; cbn; constructor; auto. split; [constructor|exact I].
+    - unfold mset_init. induction resolutions; cbn; auto. }
+  destruct (hrun_inv ops mset_init [] I0 F) as (I1 & I2 & I3).
+  set (lv := fst _) in *. set (cur := snd _) in *.
+  pose proof (lvl_inv_wf lv I1) as Wf.
+  assert (Nd : NoDup (map bid (concat lv))).
+  { apply (Permutation_NoDup (Permutation_map bid (Permutation_sym I2))). exact I3. }
+  split; [exact Wf|]. split; [exact Nd|]. split; [exact I2|].
+  intros mint maxt maxres out H. split; [apply (res_bound lv mint maxt maxres out Wf H)|].
+  split; [apply (overlap lv mint maxt maxres out H)|]. split.
+  - intros x Hx. apply (Permutation_in _ I2). apply (selected_from_set lv mint maxt maxres out H x Hx).
+  - split; [apply (nodup_ids lv mint maxt maxres out Nd H)|].
+    intros t b Ht Hb Hr Hc. apply (cover lv mint maxt maxres out t b Wf H Ht); [|exact Hr|exact Hc].
+    apply (Permutation_in _ (Permutation_sym I2)). exact Hb.
+Qed.
+
+(* a remove that does not keep the order (swap with the last element) leaves a level unsorted:
+   four blocks in time order, the first one replaced by the last; getFor on that list misses the
+   block 10-20 for the query [-2,10] *)
+Lemma unsorted_level_refuted :
+  let lv := [[]; []; [mkBlock 4 30 40 0; mkBlock 2 10 20 0; mkBlock 3 20 30 0]] in
+  sorted_by blk_le (nth 2 lv []) = false /\
+  get_for_top true lv (-2) 10 0 = Some [] /\
+  covers (mkBlock 2 10 20 0) 10 = true /\
+  get_for_top true (mremove 1 (fold_left (madd resolutions) [mkBlock 1 0 10 0; mkBlock 2 10 20 0; mkBlock 3 20 30 0; mkBlock 4 30 40 0] mset_init)) (-2) 10 0
+    = Some [mkBlock 2 10 20 0].
+Proof. cbn zeta. repeat split; vm_compute; reflexivity. Qed.
+
+Lemma remove_shape : removeAssigns = ["s.blocks[i] = append(bs[:j], bs[j+1:]...)"]%string.
+Proof. reflexivity. Qed.
